@@ -587,4 +587,6 @@ def replay(ctx, case):
     bad = oracle(case, out)
     for b_ in bad:
         print("violation:", b_)
+    import shutil
+    shutil.rmtree(ctx.tmp, ignore_errors=True)
     return not bad
